@@ -105,7 +105,7 @@ class Emitter:
             self.rec_index = idx
         return self.rec_index
 
-    def rec_by_name(self, q):
+    def rec_by_name(self, q, depth_guard=0):
         """resolve a printed record type to a record decl (simple-name match among instantiated records)"""
         q0 = q
         q = re.sub(r'\b(const|volatile|struct|class)\b', '', q).strip()
@@ -143,19 +143,86 @@ class Emitter:
             ex = [c for c in cands if sanitize(q).endswith(self.tu.scope_name(c).split('__')[-1])]
             if len(ex) == 1:
                 return ex[0]
+            # argument-wise match with constants (constexpr variables, true/false) substituted by their values
+            m = re.search(r'<(.*)>\s*$', q)
+            if m:
+                want_args = [self.norm_targ(a) for a in split_top(m.group(1))]
+                ex = [c for c in cands if [self.norm_targ(a) for a in self.tu.targs(c)] == want_args]
+                if len(ex) >= 1 and len(set(self.tu.scope_name(c) for c in ex)) == 1:
+                    return ex[0]
             # identical definitions reached through different ids (same name & args) -> first
             names = set(self.tu.scope_name(c) for c in cands)
             if len(names) == 1:
                 return cands[0]
+        if len(cands) == 0 and simple and depth_guard < 4:
+            # type alias / typedef: resolve through the alias declarations of that name
+            targets = set()
+            for n in self.alias_index().get(simple, ()):
+                t = n.get('type', {})
+                targets.add(t.get('desugaredQualType') or t.get('qualType'))
+            targets.discard(None)
+            if len(targets) == 1:
+                return self.rec_by_name(targets.pop(), depth_guard + 1)
+            if len(targets) > 1 and '::' in base:
+                # qualified alias  Outer<...>::alias : resolve the qualifier first, then the alias inside that record
+                d, cut = 0, None
+                for i in range(len(q) - 1, 0, -1):
+                    if q[i] == '>':
+                        d += 1
+                    elif q[i] == '<':
+                        d -= 1
+                    elif d == 0 and q[i - 1:i + 1] == '::':
+                        cut = i - 1
+                        break
+                if cut:
+                    outer = self.rec_by_name(q[:cut], depth_guard + 1)
+                    for c in outer.get('inner', ()):
+                        if c.get('kind') in ('TypeAliasDecl', 'TypedefDecl') and c.get('name') == simple:
+                            t = c.get('type', {})
+                            return self.rec_by_name(t.get('desugaredQualType') or t.get('qualType'), depth_guard + 1)
         if len(cands) != 1:
             raise Abort('record for type %r: %d candidates %s' % (q0, len(cands), [self.tu.scope_name(c) for c in cands][:6]))
         return cands[0]
+
+    def alias_index(self):
+        if not hasattr(self, '_alias_index'):
+            idx = {}
+            for nid, n in self.tu.byid.items():
+                if n.get('kind') in ('TypeAliasDecl', 'TypedefDecl') and n.get('name') and not self.tu.is_template_pattern(n):
+                    idx.setdefault(n['name'], []).append(n)
+            self._alias_index = idx
+        return self._alias_index
+
+    def norm_targ(self, a):
+        a = a.strip()
+        if a in ('true', '-1'):
+            return '1'
+        if a == 'false':
+            return '0'
+        simple = a.split('::')[-1]
+        if re.match(r'^[A-Za-z_]\w*$', simple):
+            for n in self.const_vars().get(simple, ()):
+                v = self.const_value(n)
+                if v is not None:
+                    return '1' if v in ('true', '-1') else ('0' if v == 'false' else str(v))
+        return sanitize(a)
+
+    def const_vars(self):
+        if not hasattr(self, '_const_vars'):
+            idx = {}
+            for nid, n in self.tu.byid.items():
+                if n.get('kind') == 'VarDecl' and n.get('constexpr') and n.get('init') and n.get('name'):
+                    idx.setdefault(n['name'], []).append(n)
+            self._const_vars = idx
+        return self._const_vars
 
     def rec_cname(self, rec):
         return self.tu.scope_name(rec)
 
     def struct_of(self, rec):
         """ensure struct definition for record decl; returns 'struct X'"""
+        if rec.get('definitionData', {}).get('isLambda'):
+            rec = self.tu.lambda_canon(rec)
         rid = rec['id']
         if rid not in self.structs:
             cn = self.rec_cname(rec)
@@ -235,6 +302,10 @@ class Emitter:
         m = re.match(r'^std::atomic<(.*)>$', q)
         if m:
             return self.ctype_s(m.group(1))
+        m = re.match(r'^(?:std::)?enable_if<(.*)>::type$', q) or re.match(r'^(?:std::)?enable_if_t<(.*)>$', q)
+        if m:
+            a = split_top(m.group(1))
+            return 'void' if len(a) == 1 else self.ctype_s(a[1], ptr)
         m = re.match(r'^std::integral_constant<bool, (true|1)>$', q)
         if m:
             return 'struct std__true_type'
@@ -306,7 +377,7 @@ class Emitter:
         if fn is None:
             return True
         q = fn['type']['qualType']
-        if re.search(r'\bnoexcept\b(?!\s*\(\s*false)', q):
+        if re.search(r'\bnoexcept\s*(\(\s*(true|1)\s*\))?\s*$', q) or re.search(r'\)\s*(const\s*)?noexcept\s*(->|$)', q):
             return False
         if fn['kind'] == 'CXXDestructorDecl':
             return False
@@ -319,6 +390,7 @@ class Emitter:
 
     def request(self, fn_id):
         """returns (decl, has_body_to_translate)"""
+        fn_id = self.canon_fn(fn_id)
         d = self.tu.defn.get(fn_id)
         if d is None:
             n = self.tu.byid.get(fn_id)
@@ -337,6 +409,22 @@ class Emitter:
             self.todo.append(d)
         return d, True
 
+    def canon_fn(self, fn_id):
+        """operator() of a lambda instantiated several times -> operator() of the canonical closure record"""
+        n = self.tu.byid.get(fn_id)
+        if n is None or n.get('kind') != 'CXXMethodDecl' or n.get('name') != 'operator()':
+            return fn_id
+        cls = self.tu.parent.get(fn_id)
+        if cls is None or not cls.get('definitionData', {}).get('isLambda'):
+            return fn_id
+        canon = self.tu.lambda_canon(cls)
+        if canon['id'] == cls['id']:
+            return fn_id
+        for c in canon.get('inner', ()):
+            if c.get('kind') == 'CXXMethodDecl' and c.get('name') == 'operator()':
+                return c['id']
+        return fn_id
+
     def is_instance_member(self, fn):
         f0 = self.tu.byid.get(self.tu.first.get(fn['id'], fn['id']), fn)
         return fn['kind'] in ('CXXMethodDecl', 'CXXConstructorDecl', 'CXXDestructorDecl', 'CXXConversionDecl') \
@@ -345,10 +433,16 @@ class Emitter:
     def ret_ctype(self, fn):
         if fn['kind'] in ('CXXConstructorDecl', 'CXXDestructorDecl'):
             return 'void'
-        ret, _, _ = fn_type_parts(fn['type']['qualType'])
+        ret, _, _ = fn_type_parts(fn['type'].get('desugaredQualType') or fn['type']['qualType'])
         if ret in ('auto', 'decltype(auto)'):
             raise Abort('undeduced return type in ' + fn.get('name', '?'))
-        return self.ctype_s(self.resolve_dependent(ret, fn))
+        try:
+            return self.ctype_s(self.resolve_dependent(ret, fn))
+        except Abort:
+            ret2, _, _ = fn_type_parts(fn['type']['qualType'])
+            if ret2 != ret:
+                return self.ctype_s(ret2)
+            raise
 
     def resolve_dependent(self, q, fn):
         return q
@@ -356,7 +450,7 @@ class Emitter:
     def returns_ref(self, fn):
         if fn['kind'] in ('CXXConstructorDecl', 'CXXDestructorDecl'):
             return False
-        ret, _, _ = fn_type_parts(fn['type']['qualType'])
+        ret, _, _ = fn_type_parts(fn['type'].get('desugaredQualType') or fn['type']['qualType'])
         return ret.strip().endswith('&')
 
     def signature(self, fn):
@@ -1181,12 +1275,35 @@ class Emitter:
                 return [self.base_member(r)] + sub
         return None
 
+    def path_by_names(self, drec, names):
+        out = []
+        cur = drec
+        for nm in names:
+            nxt = None
+            for b in cur.get('bases', []) or []:
+                r = self.rec_by_name(b['type'].get('desugaredQualType') or b['type']['qualType'])
+                if r.get('name') == nm:
+                    nxt = r
+                    break
+            if nxt is None:
+                return None
+            self.struct_of(cur)
+            out.append(self.base_member(nxt))
+            cur = nxt
+        return out
+
     def derived_to_base(self, e, inner):
-        brec, is_ptr = self.pointee_rec(e['type'])
+        q = (e['type'].get('desugaredQualType') or e['type']['qualType']).strip()
+        is_ptr = q.endswith('*')
         drec, _ = self.pointee_rec(inner['type'])
-        path = self.base_path(drec, brec)
+        path = None
+        if e.get('path'):
+            path = self.path_by_names(drec, [p['name'] for p in e['path']])
         if path is None:
-            raise Abort('no base path %s -> %s' % (drec.get('name'), brec.get('name')))
+            brec, is_ptr = self.pointee_rec(e['type'])
+            path = self.base_path(drec, brec)
+        if path is None:
+            raise Abort('no base path from %s' % (drec.get('name')))
         s = self.sub(inner)
         if is_ptr:
             return '(&(%s)->%s)' % (s, '.'.join(path)) if path else s
@@ -1468,7 +1585,8 @@ class Emitter:
             raise Abort('declval evaluated')
         if nm in ('swap', 'adl_swap') and len(args) == 2:
             t = args[0]['type']
-            if self.rec_of_type_safe(t) is None:
+            srec = self.rec_of_type_safe(t)
+            if srec is None or (self.trivially_copyable(srec) and nm == 'swap' and ns == 'std'):
                 a, b = self.addr_of(args[0]), self.addr_of(args[1])
                 tv = self.tmp('sw')
                 self.pre.append('%s = *%s; *%s = *%s; *%s = %s;' % (self.cdecl(t, tv), a, a, b, b, tv))
@@ -1649,6 +1767,7 @@ class Emitter:
 
     # ---- lambdas
     def closure_info(self, rec):
+        rec = self.tu.lambda_canon(rec)
         rid = rec['id']
         if rid in self.closures:
             return self.closures[rid]
